@@ -243,6 +243,7 @@ pub fn wblock(cx: &mut Ctx, args: &Args, rng: &mut Rng) -> i32 {
     let extra = args.num("extra", 4) as usize;
     let nkeys = args.num("keys", 2) as usize;
     let lo = args.num("minlen", 0) as usize;
+    let big = args.num("big", 0) as usize;
     let mut do_len = |cx: &mut Ctx, rng: &mut Rng, key: &[u8], len: usize, data: Vec<u8>| {
         let kw = key_words(key);
         for dir in ["enc", "dec"] {
@@ -276,6 +277,16 @@ pub fn wblock(cx: &mut Ctx, args: &Args, rng: &mut Rng) -> i32 {
         }
         for _ in 0..extra {
             let len = maxlen + 1 + rng.below(1024usize.saturating_sub(maxlen).max(1));
+            let data = rng.bytes(len);
+            do_len(cx, rng, &key, len, data);
+        }
+        // lengths at which the round counter (2 * ceil(len/16) rounds) no longer fits one byte
+        for j in 0..big {
+            let len = match j % 3 {
+                0 => 2033 + rng.below(16),
+                1 => 2017 + rng.below(16),
+                _ => 2049 + rng.below(2048),
+            };
             let data = rng.bytes(len);
             do_len(cx, rng, &key, len, data);
         }
